@@ -1,9 +1,9 @@
-\* thorough exhaustive config
+\* thorough exhaustive config (write actions; read properties as quantified invariants)
 SPECIFICATION SpecW
 CONSTANTS
-  PlainKeys = {"a", "b"}
+  PlainKeys = {"a"}
   SeqKeys = {"s"}
-  MaxSeq = 3
+  MaxSeq = 2
   MaxRev = 3
   PlainFmts = {0, 1, 2}
   SeqFmts = {0, 1, 2, 3}
